@@ -10,6 +10,7 @@ mod c04;
 mod c06;
 mod c08;
 mod c11;
+mod c12;
 mod c13;
 mod c14;
 mod c15;
@@ -153,6 +154,7 @@ fn main() {
         "c07" => c06::run_c07(&mut ctx, replay_lines.as_deref()),
         "c08" => c08::run(&mut ctx, replay_lines.as_deref()),
         "c11" => c11::run(&mut ctx, replay_lines.as_deref()),
+        "c12" => c12::run(&mut ctx, replay_lines.as_deref()),
         "c13" => c13::run(&mut ctx, replay_lines.as_deref()),
         "c14" => c14::run(&mut ctx, replay_lines.as_deref()),
         "c15" => c15::run(&mut ctx, replay_lines.as_deref()),
